@@ -313,6 +313,7 @@ class Worker(metaclass=SupportClassPropertiesMeta):
             > nor that they won't. This might change in the future, so that the behaviour is consistent at least in the case of ``user_state``,
             > if proven beneficial.
         '''
+        self._sync_user_state()
         return self._user_state
 
     @user_state.setter
@@ -446,6 +447,12 @@ class Worker(metaclass=SupportClassPropertiesMeta):
             For standard workers, this simply calls `self.run` once.
         '''
         return self.run(*self._args, **self._kwargs)
+
+    def _sync_user_state(self):
+        ''' Called whenever `user_state` is read. Workers which receive the final state of the child lazily
+            should make sure here that it has been fetched, if it is available.
+        '''
+        pass
 
     def _release_child(self):
         ''' Called from the parent process (main thread) when terminate is requested,
